@@ -78,15 +78,27 @@ def compute(directory):
             continue
         with open(f) as fh:
             j = json.load(fh)
+        # only what existed in this very configuration when the inventory was taken can be missing from it now
+        present = inv.get('present:%s:%s' % (j.get('config'), name))
+        if present is None:
+            continue
+        known_f_here = set(p for p in known_f if p in present)
+        known_a_here = set(p for p in known_a if p in present)
         cur_a = set(_norm(a['path']) for a in j['items']['adts'])
-        amap = _match([p for p in cur_a if p not in known_a], [p for p in known_a if p not in cur_a], lambda p: _segments(p)[-1] if '::' in p else None)
+        amap = _match([p for p in cur_a if p not in known_a], [p for p in known_a_here if p not in cur_a], lambda p: _segments(p)[-1] if '::' in p else None)
         # local traits (named by the impls and the associated functions of the crate)
         known_t = inv.get('traits:' + name) or set()
         cur_t = set(_norm(i['trait']) for i in j['items']['impls'] if i.get('trait'))
         cur_t |= set(_norm((fn.get('assoc') or {}).get('trait')) for fn in j['built'] if (fn.get('assoc') or {}).get('trait'))
         cur_t = set(t for t in cur_t if t.startswith(name + '::'))
         if known_t:
-            amap.update(_match([p for p in cur_t if p not in known_t], [p for p in known_t if p not in cur_t],
+            amap.update(_match([p for p in cur_t if p not in known_t], [p for p in known_t if p not in cur_t and p in present],
+                               lambda p: _segments(p)[-1] if '::' in p else None))
+        # statics
+        known_s = inv.get('statics:' + name) or set()
+        cur_s = set(_norm(x['path']) for x in j['items'].get('statics') or [])
+        if known_s:
+            amap.update(_match([p for p in cur_s if p not in known_s], [p for p in known_s if p not in cur_s and p in present],
                                lambda p: _segments(p)[-1] if '::' in p else None))
         subs += sorted(amap.items())
 
@@ -99,9 +111,34 @@ def compute(directory):
             for fn in j[view]:
                 if fn['kind'] in ('Fn', 'AssocFn'):
                     cur_f[canon(_norm(fn['path']))] = canon(fn['path'])
-        fmap = _match([p for p in cur_f if p not in known_f], [p for p in known_f if p not in cur_f], _tail)
+        all_adts = cur_a | set(known_a)
+
+        def ftail(p):
+            # an inherent method written as `Type::name` moves with its type (handled above), never on its own
+            segs = _segments(p)
+            if not any(x.startswith('<') for x in segs) and '::'.join(segs[:-1]) in all_adts:
+                return None
+            return _tail(p)
+        fmap = _match([p for p in cur_f if p not in known_f], [p for p in known_f_here if p not in cur_f], ftail)
+        # an inherent method is the same item whether its impl block is written next to the type (`T::m`) or in another module
+        # (`other::<impl T>::m`): moving the impl block changes the form of the path
+        def mkey(p):
+            segs = _segments(p)
+            if len(segs) >= 2 and segs[-2].startswith('<impl ') and ' for ' not in segs[-2]:
+                return _norm(segs[-2][len('<impl '):-1]) + '::' + segs[-1]
+            if not any(x.startswith('<') for x in segs) and '::'.join(segs[:-1]) in all_adts:
+                return p
+            return None
+        new_m = [p for p in cur_f if p not in known_f and p not in fmap and mkey(p)]
+        miss_m = [p for p in known_f_here if p not in cur_f and p not in fmap.values() and mkey(p)]
+        for n, m in sorted(_match(new_m, miss_m, mkey).items()):
+            raw = cur_f[n]
+            segs = _segments(raw)
+            if len(segs) > 1 and segs[-1].startswith('<') and not segs[-2].startswith('<'):
+                raw = '::'.join(segs[:-1])
+            subs.append((raw, m))
         for n, m in sorted(fmap.items()):
-            t = _tail(n)
+            t = ftail(n)
             pn, po = n[:len(n) - len(t)], m[:len(m) - len(t)]
             raw = cur_f[n]
             segs = _segments(raw)
